@@ -26,8 +26,7 @@ def relation(r, c, h, w, H=10, W=10):
     return ax(r, h, H) + '/' + ax(c, w, W)
 
 
-def main():
-    run = Run('C20')
+def body(run):
     run.build(extra_targets=['theories/Corr/CheckC20.v'])
     rng = run.rng('io')
     dsets = impl_io.make_datasets(run.work, rng)
@@ -102,8 +101,7 @@ def main():
                        'non-trivial = window not wholly inside the dataset; distinct = distinct (file, window, bands)')
     run.extra['input_distribution'] = dict(relations=rels, model_cases=len(cases), model_nontrivial=nt)
     run.trusted += ['GDAL/rasterio read, write and mask I/O (H_codec): the dataset content the model is given is what rasterio reads back']
-    run.finish()
 
 
 if __name__ == '__main__':
-    main()
+    Run('C20').guard(body)
